@@ -170,6 +170,13 @@ def rule_outlet(chk, rel, cls, fn):
     # move = copy + delete of the same set
     r1 = by.get('source_pa', [])
     ok = len(r1) == 1 and index_def(fn, r1[0].args[0], r1[0]) is idef
+    if not ok and len(r1) == 1:
+        # a recomputed index set denotes the same particles when it has the same origin and the fluid array was not modified in between
+        o1 = index_origin(fn, r1[0].args[0], r1[0])
+        mutated = any(isinstance(c.func, ast.Attribute) and compact(c.func.value) in ('source_pa', 'self.io_eval') and
+                      c.func.attr in ('remove_particles', 'add_particles', 'extend', 'resize', 'append_parray', 'set', 'evaluate', 'align_particles')
+                      and pos(e) < pos(c) < pos(r1[0]) for c in M.calls(fn))
+        ok = o is not None and o1 is not None and o1[:2] == o[:2] and not mutated
     if ok:
         en = [n.id for n in g.nodes if n.ast is not None and isinstance(n.ast, (ast.Expr, ast.Assign)) and any(e is x for x in ast.walk(n.ast))]
         rn = [n.id for n in g.nodes if n.ast is not None and isinstance(n.ast, ast.Expr) and any(r1[0] is x for x in ast.walk(n.ast))]
